@@ -15,6 +15,9 @@ OPS = [
     "s <- s + \"é\"", "g(a, {i})", "b <- [a, a]", "a <- c[1]", "DISPLAY(a + b)", "b <- [] + a", "b <- a + []", "a <- [] + []",
     # an indexed assignment whose right-hand side changes the very list being assigned into (directly or through an alias)
     "a[{i}] <- REMOVE(a, 1)", "a[LENGTH(a)] <- REMOVE(a, 1)", "b[LENGTH(b)] <- REMOVE(a, 1)", "a[{i}] <- h(a)",
+    # assignments between list variables inside a block, a branch, a loop body (lists with equal contents are still different lists)
+    "IF (TRUE) {{ a <- b }}", "{{ b <- a }}", "REPEAT 1 TIMES {{ a <- c[1] }}", "IF (TRUE) {{ a <- [10, 20] }}", "{{ b <- [] + a }}",
+    "a <- [30]", "b <- [10, 20]",
 ]
 VALS = ["0", '"x"', "NULL", "[9]", "TRUE"]
 HEADER = ("PROCEDURE f(p) {\nAPPEND(p, 100)\np <- [0]\nAPPEND(p, 1)\n}\nPROCEDURE g(p, i) {\np[i] <- \"g\"\n}\n"
@@ -57,10 +60,12 @@ class PROP(PropCheck):
             "to length 30 (thorough). non-trivial = distinct history with at least 2 operations or an index operation")
 
     def expand(self, op, rng=None, i=None, v=None):
-        return op.replace("{i}", i if i is not None else rng.choice(IDX)).replace("{v}", v if v is not None else rng.choice(VALS))
+        return (op.replace("{i}", i if i is not None else rng.choice(IDX)).replace("{v}", v if v is not None else rng.choice(VALS))
+                .replace("{{", "{").replace("}}", "}"))
 
     def corpus(self):
-        fixed = [["a <- [1, 2]", "b <- [3, 4]", "a <- b", "APPEND(a, 5)"], ["a <- a"], ["b <- [a, 1]", "a <- b"], ["DISPLAY(a[0])"],
+        fixed = [["b <- [10, 20]", "IF (TRUE) { a <- b }", "APPEND(b, 3)", "a[1] <- 0"], ["b <- []", "a <- []", "{ a <- b }", "APPEND(a, 1)"],
+                 ["a <- [1, 2]", "b <- [3, 4]", "a <- b", "APPEND(a, 5)"], ["a <- a"], ["b <- [a, 1]", "a <- b"], ["DISPLAY(a[0])"],
                  ["INSERT(a, 0, 1)"], ["INSERT(a, 3, 1)", "INSERT(a, 5, 1)"], ["DISPLAY(REMOVE(a, 3))"], ["a[0.5] <- 1"],
                  ["f(a)", "g(a, 1)", "g(a, 0)"], ["b <- a + a", "APPEND(b, 1)"], ["b <- [] + a", "APPEND(b, 1)", "b[1] <- 9"],
                  ["b <- a + []", "DISPLAY(REMOVE(b, 1))"], ["a <- []", "b <- a + a", "APPEND(b, 1)"], ["c[1][1] <- 7"], ["DISPLAY(s[3])", "DISPLAY(s[4])"]]
@@ -77,7 +82,7 @@ class PROP(PropCheck):
                 for v in VALS:
                     out.append(Case(program([self.expand(op, rng, v=v)]), meta={"steps": 1}))
             else:
-                out.append(Case(program([op]), meta={"steps": 1}))
+                out.append(Case(program([self.expand(op, rng)]), meta={"steps": 1}))
         if tier != "quick":
             for o1, o2 in itertools.product(OPS, OPS):
                 out.append(Case(program([self.expand(o1, rng), self.expand(o2, rng)]), meta={"steps": 2}))
